@@ -210,6 +210,27 @@ def generate(ctx):
         ctx.corr("seq", P.op_seq(("rel", rels[0]), [("merge", others), ("readAbs",), ("readRel",)]))
         ctx.corr("merge", P.op_merge(a0, others))
         ctx.sample({"rels": [r[:6] for r in rels]})
+    # deep overlaps: three to five inputs whose notes of ONE channel and pitch all sound at a common tick (overlap depth >= 3), with ends in
+    # random order — the fused note must last to the LATEST end (seeded change C15_agent7: nesting counted up to depth 2 only)
+    for i in range(ctx.n(60, 1500)):
+        k = rng.randint(3, 5)
+        ch, pitch = rng.choice([0, 1]), rng.choice([60, 62])
+        common = rng.randint(20, 60)
+        rels = []
+        for j in range(k):
+            on = rng.randint(0, common)
+            off = rng.randint(common + 1, 200)
+            ab = [G.pm(ON, ch, on, note=pitch, vel=rng.choice([1, 64, 127])), G.pm(OFF, ch, off, note=pitch)]
+            if rng.random() < 0.4:          # a bystander on another key
+                o2 = rng.randint(0, 150)
+                ab += [G.pm(ON, ch, o2, note=pitch + 5, vel=64), G.pm(OFF, ch, o2 + rng.randint(1, 40), note=pitch + 5)]
+            rels.append(G.abs_to_rel(sorted(ab, key=lambda m: m[2])))
+        ctx.count("deep-overlap:inputs:%d" % k)
+        ctx.case(rels, True)
+        ctx.check("merge", {"rels": rels})
+        a0 = [from_real(m) for m in P.seq_of_rel(rels[0]).abs._messages]
+        others = [[from_real(m) for m in P.seq_of_rel(r).abs._messages] for r in rels[1:]]
+        ctx.corr("merge", P.op_merge(a0, others))
     # exhaustive small scope: every pair of relative lists of <= 1 (quick) / <= 2 (thorough) messages, merged both ways
     small = list(G.enum_rel(2 if ctx.thorough else 1))
     for r0 in small:
